@@ -14,13 +14,14 @@ use crate::{
         input_json_extensions::InputJsonExtensions, input_plugin::InputPlugin, InputPluginError,
     },
 };
+use geo::Centroid;
 use geo_types::Coord;
 use routee_compass_core::{
     model::network::edge_id::EdgeId,
     model::unit::{as_f64::AsF64, Distance, DistanceUnit, BASE_DISTANCE_UNIT},
     util::{
         fs::{read_decoders, read_utils},
-        geo::geo_io_utils::read_linestring_text_file,
+        geo::{geo_io_utils::read_linestring_text_file, haversine},
     },
 };
 use rstar::RTree;
@@ -189,9 +190,13 @@ fn search(
     vehicle_parameters: &Option<VehicleParameters>,
 ) -> Result<Option<EdgeId>, InputPluginError> {
     let point = geo::Point(coord);
-    for (record, distance_meters) in rtree.nearest_neighbor_iter_with_distance_2(&point) {
-        if !within_tolerance(tolerance, &distance_meters) {
-            return Ok(None);
+    for (record, _distance_2) in rtree.nearest_neighbor_iter_with_distance_2(&point) {
+        // the r-tree ranks by squared coordinate distance; the tolerance is a great-circle distance
+        if tolerance.is_some() {
+            let distance_meters = record_distance_meters(record, &coord)?;
+            if !within_tolerance(tolerance, &distance_meters) {
+                return Ok(None);
+            }
         }
         let valid_class = match (road_classes, road_class_lookup) {
             (Some(valid_classes), Some(lookup)) => {
@@ -226,6 +231,23 @@ fn search(
 }
 
 /// helper to build a matching error response
+/// great-circle distance in meters between a query coordinate and the point of the
+/// record that the r-tree measures distances to (the centroid of its geometry)
+fn record_distance_meters(
+    record: &EdgeRtreeRecord,
+    coord: &Coord<f32>,
+) -> Result<f32, InputPluginError> {
+    let centroid = record.geometry.centroid().ok_or_else(|| {
+        InputPluginError::InputPluginFailed(format!(
+            "edge rtree geometry for edge {} is empty",
+            record.edge_id
+        ))
+    })?;
+    let distance = haversine::coord_distance_meters(&centroid.0, coord)
+        .map_err(InputPluginError::InputPluginFailed)?;
+    Ok(distance.as_f64() as f32)
+}
+
 fn matching_error(
     coord: &Coord<f32>,
     tolerance: Option<(Distance, DistanceUnit)>,
